@@ -283,6 +283,19 @@ def targetOk (pg : PGws) (routes : List RouteG) (svcs : List NN) (polNs : String
   else if gk = serviceGroupKind then svcs.any (fun s => decide (s = nn))
   else false
 
+/-- REFUTED VARIANT (seeded change C17-r4m1): the targetRef is dispatched by KIND (as `attachPolicies` does) and the
+group is compared for Gateway/HTTPRoute/GRPCRoute only — a `Service` of ANY API group is looked up among our
+referenced core Services. -/
+def targetOkKindOnly (pg : PGws) (routes : List RouteG) (svcs : List NN) (polNs : String) (t : TRef) : Bool :=
+  let nn : NN := ⟨polNs, t.name⟩
+  if t.kind = gatewayKind then decide (t.group = gatewayGroup) && gatewayExists nn pg
+  else if t.kind = "HTTPRoute" then
+    decide (t.group = gatewayGroup) && routes.any (fun r => decide (r.kind = .http) && decide (r.nn = nn))
+  else if t.kind = "GRPCRoute" then
+    decide (t.group = gatewayGroup) && routes.any (fun r => decide (r.kind = .grpc) && decide (r.nn = nn))
+  else if t.kind = "Service" then svcs.any (fun s => decide (s = nn))
+  else false
+
 /-- a Policy that is in `Graph.NGFPolicies` -/
 structure PolicyG where
   gvk : String
